@@ -29,7 +29,7 @@ func (p *Prop) Meta() simkit.Meta {
 		Real: []string{"stats.LinearHist", "stats.LogHist", "stats.HistogramQuantile", "stats.HistogramIQR"},
 		Stub: []string{"producer", "stub Histogram (drawn counters) for a quarter of the runs"},
 		Assumptions: []string{
-			"NewLogHist with max<=1, NaN/Inf, and values more than 1e6 bin widths outside the range are not generated (int conversion of such values is platform-defined); LogHist.Add(x<=0) IS generated and must land in the under count (on amd64 the conversion of -Inf/NaN yields a negative index, which the pinned code already counts as under)",
+			"NewLogHist with max<=1 and NaN/Inf samples are not generated; any finite sample is (up to 1e40 ranges outside a LinearHist, the whole positive double range and x<=0 for a LogHist): since fix 4d831fb the bin index is clamped before the float-to-int conversion, so nothing platform-defined is left",
 			"bins are at least 1e6 ulps of the range end points wide",
 			"a value within 16*eps*(|min|+|max|+|x|) of an edge (LogHist: 16*eps*(1+|ln x|) in log space) may fall on either side, as the statement allows",
 			"the floor(q*total)-th smallest sample is counted from 1 (the 1st smallest is the minimum, q=1 names the maximum - the statement expects q=1 to work); rank 0 names no sample and nothing is demanded there beyond not panicking; the in-bin interpolation rank is accepted within +-1. (The first version accepted a 0-based reading as well, which made q=1 with overflow samples vacuous; an independent breaking change, seeded C14-t3, showed that.)",
@@ -239,12 +239,15 @@ func (c *ctx) genValue() (float64, int) {
 	var x float64
 	switch cls {
 	case 0:
-		if s.log {
+		if s.log && c.g.Chance(1, 4) {
+			x = math.Pow(10, -c.g.Uniform(1, 307)) // down to the smallest normal doubles
+		} else if s.log {
 			x = s.edge(-float64(c.g.Range(1, 20)) - c.g.Unit())
 		} else if s.huge {
 			x = s.edge(-n * c.g.Unit()) // at most one range below (further out overflows)
 		} else {
-			x = s.edge(-n * (1 + c.g.Unit()*float64(c.g.Range(1, 1000))))
+			// from a few ranges below to astronomically far below (any finite value)
+			x = s.edge(-n * (1 + c.g.Unit()*math.Pow(10, float64(c.g.Range(0, 40)))))
 		}
 	case 1:
 		u := c.g.Unit()
@@ -263,12 +266,14 @@ func (c *ctx) genValue() (float64, int) {
 	case 6:
 		x = c.h.BinToValue(n)
 	case 7:
-		if s.log {
+		if s.log && c.g.Chance(1, 4) {
+			x = math.Pow(10, c.g.Uniform(100, 308))
+		} else if s.log {
 			x = s.edge(n + float64(c.g.Range(0, 20))*c.g.Unit())
 		} else if s.huge {
 			x = s.edge(n * (1 + c.g.Unit()))
 		} else {
-			x = s.edge(n * (1 + c.g.Unit()*float64(c.g.Range(0, 1000))))
+			x = s.edge(n * (1 + c.g.Unit()*math.Pow(10, float64(c.g.Range(0, 40)))))
 		}
 	}
 	return x, cls
